@@ -44,3 +44,12 @@ package objectcache
 //@ effect[C20:early-close-never-completes-the-fill] never (*io.PipeWriter).Close()
 //@ effect[C20:early-close-aborts-the-fill] never (*io.PipeWriter).CloseWithError($e) if $e == nil
 //@ effect[C20:source-closed] every r.ReadCloser.Close()
+
+// Bulk delete: every entry the inner storage reports as deleted has its cache entries dropped (the loop over the
+// result goes on to the next entry only after that), and nothing is dropped before the inner storage answered.
+//@ func (*objectCacheStorageMiddleware).DeleteObjects
+//@ mode effects
+//@ havoc invalidateObjectCaches
+//@ effect[C20:bulk-delete-invalidates-every-deleted-key] every loop_continues() if entry.Deleted
+//@     needs before m.invalidateObjectCaches(_, $b, $k) where $b == bucketName && $k == entry.Key
+//@ effect[C20:bulk-delete-invalidates-after-the-inner-call] every m.invalidateObjectCaches(__) needs before m.Next.DeleteObjects(_, _, _) -> ($r, $e) where $e == nil
